@@ -1,6 +1,18 @@
 //! Verification facade (cargo feature `verif`): thin, add-only wrappers that let an external
 //! harness reach crate-private entry points and read the constants the code actually uses.
-//! Nothing in here is compiled unless the feature is enabled.
+//! Nothing in here is compiled unless the feature is enabled. One sub-module per area.
+
+pub mod btree;
+pub mod cache;
+pub mod iotap;
+pub mod pager;
+pub mod parse;
+pub mod plan;
+pub mod pool;
+pub mod tuple;
+pub mod txn;
+pub mod value;
+pub mod wal;
 
 /// Constants of the wire protocol as the code defines them.
 pub fn wire_constants() -> (u8, usize) {
